@@ -885,7 +885,7 @@ def grid_layout(context, box, bottom_space, skip_stack, containing_block,
                         assert first_start[0] == 'span'
                         span = _get_span(first_start)
                         first_i, first_size = _get_placement(
-                            first_start, (None, first_i + 1 + span, None),
+                            first_start, (None, cursor_first + 1 + span, None),
                             first_tracks[::2])
                     if first_i < cursor_first:
                         continue
